@@ -185,9 +185,9 @@ macro_rules! battery {
                         // a: structure selector, b..e: numbers, f: timestamp selector
                         let ver = [0u8, b'2', b'3'][(a.rem_euclid(3)) as usize];
                         let ntr = ((a / 3).rem_euclid(4)) as usize;
-                        let nty = 1 + ((a / 12).rem_euclid(3)) as usize;
+                        let nty = ((a / 12).rem_euclid(4)) as usize; // 0 types: a file no lookup can index
                         let times: Vec<i64> = (0..ntr).map(|i| b + (i as i64) * (1 + cc.rem_euclid(40_000_000))).collect();
-                        let idx: Vec<u8> = (0..ntr).map(|i| ((d >> (2 * i)) & 3) as u8 % (nty as u8 + ((a / 36).rem_euclid(5) == 0) as u8)).collect();
+                        let idx: Vec<u8> = (0..ntr).map(|i| ((d >> (2 * i)) & 3) as u8 % (nty as u8 + ((a / 36).rem_euclid(5) == 0) as u8).max(1)).collect();
                         let offs: Vec<i32> = (0..nty).map(|i| (((e >> (8 * i)) & 0xff) as i32 - 128) * 900).collect();
                         const FOOT: [&str; 24] = ["", "<+01>-1", "HST10", "CET-1CEST,M3.5.0,M10.5.0/3", "EST5EDT,M3.2.0,M11.1.0", "AEST-10AEDT,M10.1.0,M4.1.0/3",
                             "X-1Y,J59,J300", "X-1Y,J60,J365/25", "X-1Y,59,300", "X-1Y,0/0,364", "IST-2IDT,M3.4.4/26,M10.5.0", "X-1Y,M13.1.0,M3.1.0", "X-1Y,M3.0.0,M10.6.0",
